@@ -430,9 +430,13 @@ func c06Constructs(cls, nest, kind, exit string) []string {
 		return out
 	case "pre":
 		if exit == "err" {
-			return []string{"unpack-many", "unpack-few", "forunpack-many"}
+			out := []string{"unpack-many", "unpack-few", "forunpack-many", "pair-len3", "pair-frozen-target", "pair-iterated-target", "zip-noniter"}
+			if kind == "list" {
+				out = append(out, "pair-unhashable")
+			}
+			return out
 		}
-		return []string{"starargs", "unpack", "forunpack", "list", "tuple", "enumerate", "reversed", "zip", "extend", "sorted", "len"}
+		return []string{"starargs", "unpack", "forunpack", "list", "tuple", "enumerate", "reversed", "zip", "extend", "sorted", "len", "pair-dict", "pair-update", "pair-dictcomp"}
 	case "go":
 		out := []string{"Iterate", "Elements"}
 		if kind == "dict" {
@@ -562,6 +566,19 @@ def run(X, Y):
 			stmts = "    t = zip(X, X)\n    r = act(body(1))\n    r = act(body(2))\n"
 		case "extend":
 			stmts = "    t = []\n    t.extend(X)\n    r = act(body(1))\n    r = act(body(2))\n"
+		// X as a key/value PAIR inside the argument of dict() / update(): the built-in iterates X itself
+		case "pair-dict", "pair-len3", "pair-unhashable":
+			stmts = "    t = dict([X])\n    r = act(body(1))\n    r = act(body(2))\n"
+		case "pair-update":
+			stmts = "    t = {}\n    t.update([X], k = 1)\n    r = act(body(1))\n    r = act(body(2))\n"
+		case "pair-dictcomp":
+			stmts = "    t = {k: v for k, v in [X]}\n    r = act(body(1))\n    r = act(body(2))\n"
+		case "pair-frozen-target":
+			stmts = "    FROZEN.update([X])\n    r = act(body(1))\n"
+		case "pair-iterated-target":
+			stmts = "    for k in TARGET:\n        TARGET.update([X])\n    r = act(body(1))\n"
+		case "zip-noniter":
+			stmts = "    t = zip(X, 1)\n    r = act(body(1))\n"
 		}
 		b = "\ndef f3(*a):\n    body(a[0])\n    return body(a[1])\ndef run(X, Y):\n" + stmts + "    after()\n    return \"done\"\n"
 	case "go":
@@ -631,6 +648,13 @@ func c06Run(tr *c06Tracer, sc c06Scenario, kind, conc string, limit uint64) (res
 	elems := []starlark.Value{e.probes[0], e.probes[1], e.probes[2]}
 	tr.on = false
 	e.X = e.newColl(kind, elems)
+	if strings.HasPrefix(conc, "pair-") && conc != "pair-len3" {
+		first := starlark.Value(e.probes[0])
+		if conc == "pair-unhashable" {
+			first = starlark.NewList(nil)
+		}
+		e.X = e.newColl(kind, []starlark.Value{first, e.probes[1]})
+	}
 	e.Y = e.newColl(kind, []starlark.Value{&probe{id: 11, env: e}, &probe{id: 12, env: e}, &probe{id: 13, env: e}})
 	opts := &syntax.FileOptions{Set: true, GlobalReassign: true, TopLevelControl: true, While: true}
 	var err error
@@ -655,6 +679,8 @@ func c06Run(tr *c06Tracer, sc c06Scenario, kind, conc string, limit uint64) (res
 			return e.goiter(args[0])
 		}),
 		"P3": e.probes[2],
+		"FROZEN": func() starlark.Value { d := starlark.NewDict(0); d.Freeze(); return d }(),
+		"TARGET": func() starlark.Value { d := starlark.NewDict(1); d.SetKey(starlark.MakeInt(1), starlark.MakeInt(1)); return d }(),
 	}
 	g, err := starlark.ExecFileOptions(opts, e.th, "scenario.star", e.source(), pre)
 	if err != nil {
